@@ -13,7 +13,7 @@ import subprocess
 import sys
 
 V = os.path.dirname(os.path.dirname(os.path.abspath(__file__)))
-WT = "/var/tmp/wt_eval"
+WT = os.environ.get("VERIF_WT", "/var/tmp/wt_eval")
 
 
 def sh(cmd, env=None, timeout=3600, cwd=None):
